@@ -14,11 +14,11 @@
 
 import ast
 
-from .absint import FALSE, NONE, TOP, TRUE, Undecided, exc, own_names, unbox_deep, val
+from .absint import FALSE, NONE, TOP, TRUE, Undecided, exc, heap_key, is_handle, own_names, unbox_deep, val
 from .astutil import FUNC_TYPES, attr_chain, dotted
 from .effects import EffectDomain, exc_info_of, is_generator
 
-CALLABLE_TAGS = ("func", "method", "boundmethod", "bound", "partial", "builtin", "listappend", "attrgetter", "itemgetter", "methodcaller", "classref", "ctorref", "userfn")
+CALLABLE_TAGS = ("func", "method", "boundmethod", "bound", "partial", "builtin", "listappend", "attrgetter", "itemgetter", "methodcaller", "classref", "ctorref", "userfn", "setmethod")
 
 
 def is_inst(v):
@@ -160,6 +160,13 @@ class ObjectDomain(EffectDomain):
             if st.has(fr.local(chain[0])) or chain[0] in self.attrs:
                 return None
             return self._module_table(interp, chain[0], st, fr)
+        if len(chain) == 2 and chain[1] in self.SET_METHODS and st.has(fr.local(chain[0])):
+            # <a set>.update taken as a value (to be called later): a method bound to that very set
+            held = st.get(fr.local(chain[0]))
+            where = heap_key(held) if is_handle(held) else fr.local(chain[0])
+            content = st.get(where, None)
+            if isinstance(content, tuple) and content[:1] == ("set",):
+                return [val(("setmethod", where, chain[1]), st)]
         if fr.instance is not None and chain[0] == fr.selfname:
             base = fr.instance
         elif st.has(fr.local(chain[0])):
@@ -691,6 +698,11 @@ class ObjectDomain(EffectDomain):
                 n_ = st.get("ev.alloc", 0)
                 return [val(obj + (n_,), st.set("ev.alloc", n_ + 1))]
             return [val(obj, st)]
+        if tag == "setmethod":
+            cur = st.get(fn[1], None)
+            if isinstance(cur, tuple) and cur[:1] == ("set",) and len(pos) <= 1 and not kw:
+                return self.set_method(fn[1], fn[2], pos[0] if pos else None, st)
+            return [val(TOP, st)]
         if tag == "listappend":
             cur = st.get(fn[1], None)
             if isinstance(cur, tuple) and cur[:1] == ("tuple",) and len(pos) == 1:
